@@ -38,6 +38,8 @@ def states(tier, seed):
     # process, both orders: each must still agree with the reference frame (no state shared between instances)
     for (a, b), ny, model in itertools.product(itertools.permutations(["left", "right", "full"], 2), [3, 5], ["tube", "wingbox"]):
         st.append(dict(part="sequence", sides=[a, b], ny=ny, model=model, layout="sweptdi", sec="varying", fam=fam))
+    for (side, ny), sec, model in itertools.product([("left", 3), ("full", 5), ("right", 3)], ["varying", "tube"], ["tube", "wingbox"]):
+        st.append(dict(part="frame", layout="sweptdi", side=side, ny=ny, sec=sec, model=model, gscale=1.0e-3, fam=fam))
     # interleaved set-ups of beams of different materials: A set up, B (other material) set up, A analysed
     for mat, omat, (side, ny), model in itertools.product(["alu", "steel"], ["alu", "steel"], [("left", 3), ("full", 5)], ["tube", "wingbox"]):
         if mat != omat:
@@ -63,10 +65,14 @@ def nodes_of(s):
         y = np.abs(m[:, :, 1])
         m[:, :, 2] += 0.25 * np.maximum(y - 2.0, 0.0)
         m[:, :, 0] += 0.15 * np.maximum(y - 3.0, 0.0)
-    return m
+    return m * s.get("gscale", 1.0)  # gscale: the same beam at model scale (nothing in the frame equations carries a length scale)
 
 
 def sections(s, ne):
+    gs = s.get("gscale", 1.0)
+    if gs != 1.0:
+        A, Iy, Iz, J = sections(dict(s, gscale=1.0), ne)
+        return A * gs**2, Iy * gs**4, Iz * gs**4, J * gs**4
     fam = s["fam"]
     if s["sec"] == "uniform":
         return np.full(ne, 2.0e-3), np.full(ne, 3.0e-6), np.full(ne, 5.0e-6), np.full(ne, 7.0e-6)
